@@ -40,6 +40,11 @@ ASSUMPTIONS = ['the labelling function is deterministic and is evaluated by the 
                'float sums are snapped to that grid when they are within 1e-6 of it)',
                'tables have at least one id on both axes (collapse of a table with an empty axis is known finding F25)']
 
+from . import regen_part as _regen_part
+# py2v_part: regenerate coq/Gen/PartitionGen.v (Table.partition) from the source first
+regenerate = _regen_part.hook(TRUSTED, ['partition'], 'coq/Model/Partition.v (partition_t)',
+                              'coq/Proofs/GenBridgePartitionProofs.v')
+
 AXES = ['observation', 'sample']
 FALSY = [0, '', [], None, False, 'x', 0.0, 1]
 _INFO = {}
